@@ -6,10 +6,16 @@ UNITS = {
     'C02': {
         'functions': ['penman.layout:_process_role', 'penman.layout:_process_atomic', 'penman.layout:_preconfigure',
                       'penman.layout:get_pushed_variable', 'penman.surface:AlignmentMarker.from_string',
-                      'penman.tree:_nodes', 'penman.tree:Tree.nodes', 'penman.layout:interpret'],
+                      'penman.tree:_nodes', 'penman.tree:Tree.nodes', 'penman.layout:interpret',
+                      # the public entry points: every stage gets the model and options the caller selected
+                      'penman.codec:PENMANCodec.__init__', 'penman.codec:PENMANCodec.decode',
+                      'penman.codec:PENMANCodec.encode', 'penman.codec:PENMANCodec.format',
+                      'penman.codec:PENMANCodec.parse', 'penman.codec:_decode', 'penman.codec:_encode'],
         'lemmas': ['pops_add_no_entries', 'entry_adds_its_triple'],
         'level': 'other',
-        'explanation': 'Proved: how a role / an atom and its alignment suffix are split when a tree is read '
+        'explanation': 'Proved (stages as opaque functions): decode is parse then interpret with the selected model, '
+                       'encode is configure from the requested top with the selected model then format with the '
+                       'caller\'s options (PENMANCodec.*, _decode, _encode).  Proved: how a role / an atom and its alignment suffix are split when a tree is read '
                        '(_process_role, _process_atomic), and that the data configure() works from holds every triple '
                        'once, in order, unchanged or inverted once, with the non-layout markers kept on it '
                        '(_preconfigure).  That encode(decode(s)) reproduces the tree (the in-place tree builder behind '
@@ -106,10 +112,16 @@ UNITS = {
                       'penman.graph:Graph.__init__', 'penman.graph:Graph.variables', 'penman.graph:Graph.top',
                       'penman.layout:_preconfigure',
                       # the decode side: which variables a tree defines, and the graph it is read as
-                      'penman.tree:_nodes', 'penman.tree:Tree.nodes', 'penman.layout:interpret'],
+                      'penman.tree:_nodes', 'penman.tree:Tree.nodes', 'penman.layout:interpret',
+                      # the public entry points: every stage gets the model and options the caller selected
+                      'penman.codec:PENMANCodec.__init__', 'penman.codec:PENMANCodec.decode',
+                      'penman.codec:PENMANCodec.encode', 'penman.codec:PENMANCodec.format',
+                      'penman.codec:PENMANCodec.parse', 'penman.codec:_decode', 'penman.codec:_encode'],
         'lemmas': ['pops_add_no_entries', 'entry_adds_its_triple'],
         'level': 'other',
-        'explanation': 'Proved: the configuration data holds every triple of the graph exactly once, in order, as it is or '
+        'explanation': 'Proved (stages as opaque functions): decode is parse then interpret with the selected model, '
+                       'encode is configure from the requested top with the selected model then format with the '
+                       'caller\'s options (PENMANCodec.*, _decode, _encode).  Proved: the configuration data holds every triple of the graph exactly once, in order, as it is or '
                        'inverted once, whatever the markers say (_preconfigure); '
                        'the formatter writes every atomic target it is given (0 and 0.0 included; only None and '
                        'the empty string count as missing); inversion/deinversion of triples for every model; graph '
@@ -154,10 +166,17 @@ UNITS = {
                       'penman.transform:_reified_markers', 'penman.transform:_edge_markers',
                       'penman.transform:_attr_markers', 'penman.model:Model.reify', 'penman.model:Model.dereify',
                       'penman.tree:_map_vars',
-                      'penman.model:Model.__init__'],
+                      'penman.model:Model.__init__',
+                      'penman.model:Model.original_order', 'penman.model:Model.alphanumeric_order',
+                      'penman.model:Model.canonical_order', 'penman.model:Model.is_role_inverted',
+                      'penman.graph:Graph.__or__', 'penman.graph:Graph.__sub__'],
         'lemmas': [],
         'level': 'other',
-        'explanation': 'Proved (ownership obligations over the real AST): none of the listed functions mutates an '
+        'explanation': 'Proved (functional contracts): for the sort keys, the role predicates, the graph queries and '
+                       'the non-in-place set operators the result is a stated function of the arguments; the generator '
+                       'refuses (undecided) any read of state that is not reachable from a parameter, so such a proof '
+                       'is also a proof that the result depends on nothing else.  '
+                       'Proved (ownership obligations over the real AST): none of the listed functions mutates an '
                        'object reachable from its arguments -- every in-place update (append/extend/insert/pop/sort/'
                        'add/update/del/item and attribute stores) hits an object created inside the call.  Loops are '
                        'cut by the trivial invariant for this purpose, so the verdict covers every iteration.  '
@@ -165,12 +184,15 @@ UNITS = {
     },
     'C10': {
         'functions': ['penman.tree:is_atomic', 'penman.tree:_map_vars', 'penman.tree:_nodes', 'penman.tree:Tree.nodes',
-                      'penman.tree:Tree.reset_variables', 'penman.tree:_default_variable_prefix'],
+                      'penman.tree:Tree.reset_variables', 'penman.tree:_default_variable_prefix',
+                      'penman.layout:_interpret_node', 'penman.layout:interpret'],
         'lemmas': [],
         'level': 'other',
         'explanation': 'Proved: _map_vars rewrites a tree exactly as the relabelling spec says (same shape, roles, '
                        'concepts and constants; node variables replaced by their image; references replaced with '
-                       'their alignment suffix kept; quoted strings untouched) for every tree and every map.  '
+                       'their alignment suffix kept; quoted strings untouched) for every tree and every map; '
+                       'interpreting a tree yields the documented reading for every variable spelling '
+                       '(_interpret_node, interpret: the side of the isomorphism clause that reads a tree).  '
                        'That reset_variables builds a bijective first-fit map, and the isomorphism of the '
                        'readings, are decided by the bounded stand-in.',
     },
